@@ -169,6 +169,33 @@ def _derived_from_arg(f, v, param):
 # ---------------------------------------------------------------------------
 # T-dispatch: the decoder action table
 
+def load_callbacks_global(prog):
+    """the callback table cbor_load decodes with: the constant `struct cbor_callbacks` whose address it (or a unit-internal
+    routine it calls) passes to the streaming decoder - found by that use, wherever the table is defined and whatever its name"""
+    from ir import GlobalRef, strip_casts
+    seen, work = set(), ["cbor_load"]
+    while work:
+        fn = work.pop()
+        if fn in seen or fn not in prog.funcs:
+            continue
+        seen.add(fn)
+        f = prog.funcs[fn]
+        for b in f.blocks:
+            for ins in b.insts:
+                if ins.op != "call":
+                    continue
+                if ins.callee == "cbor_stream_decode":
+                    for a in ins.operands:          # (the result may come first, as a hidden pointer)
+                        a = strip_casts(a, ("bitcast", "getelementptr"))
+                        if isinstance(a, GlobalRef):
+                            g = prog.global_for(f, a.name)
+                            if g is not None and "cbor_callbacks" in (g.get("type") or "") and hasattr(g.get("init_val"), "elems"):
+                                return g
+                elif ins.callee in prog.funcs and prog.funcs[ins.callee].internal:
+                    work.append(ins.callee)
+    return prog.global_for(prog.fn("cbor_load"), "cbor_load.callbacks")
+
+
 def callback_fields(prog):
     """LLVM field index -> declared field name of struct cbor_callbacks"""
     return [m["name"] for m in prog.struct_members("cbor_callbacks")]
@@ -657,7 +684,7 @@ def result_states(prog, eff, fname, at_call=None, loop_bound=1, extra_inline=())
     for pa in X.run(fname):
         if at_call:
             for e in pa.events:
-                if e.kind == "call" and e.callee == at_call and e.depth == 0 and e.extra and "state" in e.extra:
+                if e.kind == "call" and e.callee == at_call and e.extra and "state" in e.extra:   # (also inside an inlined unit-internal helper)
                     out.append(dict(path=pa, item=e.args[0], desc=describe_item(prog, e.extra["state"], e.args[0]), event=e))
         else:
             r = pa.ret
